@@ -783,7 +783,7 @@ def array_fan_stage(rep, tcfg, what, prefix, wrap=False):
                            "MC_Array T=256 growth walks", {"cfg": {"T": 256}}, "ArrayTrace.tla", tcfg, what, num, depth, fan, nhdr=0, wrap=wrap)
 
 
-def map_full_stage(rep, tcfg, what, prefix, wrap=False, limits=(255,), probes=None):
+def map_full_stage(rep, tcfg, what, prefix, wrap=False, limits=(255,), probes=None, scale=1):
     """Every transition of the COMPOSED map algorithm (MapFull: slab tree x collision groups, layer C) for keys that collide in
     pairs / triples / on every level among keys with digests of their own: groups form, spill, collapse while the slabs that hold
     them split, borrow and merge.  Replayed in edge mode (or persist-wrapped); layer C is compared as drift."""
@@ -801,7 +801,7 @@ def map_full_stage(rep, tcfg, what, prefix, wrap=False, limits=(255,), probes=No
             files, n, total = model_histories(rep, "MC_MapFull.tla", "MC_MapFull.cfg",
                                               {"EmitEdges": "TRUE", "Keys": keyset(nk), "MaxKeys": mk, "DigMode": '"%s"' % mode, "VSizes": vs, "LimitF": lim},
                                               "MC_MapFull T=256 digests=%s %d keys (<= %d present) x values %s, limit %d: all shapes of the composed algorithm, all ops" % (mode, nk, mk, vs, lim),
-                                              {"cfg": {"T": 256, "limit": lim}}, lambda ops, key: frac(key + rep.seed, 1, den), name, timeout=7200)
+                                              {"cfg": {"T": 256, "limit": lim}}, lambda ops, key: frac(key + rep.seed, 1, den * scale), name, timeout=7200)
             base = len(rep.distinct)
             rep.distinct.update(range(base, base + n))
             if wrap:
@@ -1334,7 +1334,7 @@ def check_C13(rep):
     deep_map_probe_stage(rep, "c13", "C13", what, "iter,mutiter")
     deep_array_probe_stage(rep, "c13", "C13", what, "iter,mutiter")
     # every enumeration flavour over collision groups (inline, external, full-collision lists) inside multi-slab trees
-    map_full_stage(rep, "MapTrace_C13.cfg", what, "c13", probes="iter,mutiter,partial")
+    map_full_stage(rep, "MapTrace_C13.cfg", what, "c13", probes="iter,mutiter,partial", scale=5)
     rep.exhaustive = False
 
 
@@ -1360,7 +1360,7 @@ def check_C17(rep):
     hist_stage(rep, "c17-array-streams", probe_cmd("array-run", "batch", rep), "array", "ArrayTrace.tla", "ArrayTrace_C17.cfg", files, "edge", what)
     map_probe_stages(rep, "c17", "C17", what, "batch,copy", vsizes="{12, 40, 70, 95}")
     # sources with collision groups inside multi-slab trees (composed layer C): bulk build and copy of every explored shape
-    map_full_stage(rep, "MapTrace_C17.cfg", what, "c17", probes="batch,copy")
+    map_full_stage(rep, "MapTrace_C17.cfg", what, "c17", probes="batch,copy", scale=2)
     # short growth-only walks with element sizes on the edges (an element at the inline limit at the tail of a slab,
     # an underflowing trailing slab): tail rebalance / merge of the map bulk builder
     for (depth, num) in ([(6, 150), (9, 150)] if quick else [(5, 1500), (7, 2500), (9, 2500), (12, 1500)]):
